@@ -16,7 +16,7 @@ OUTSIDE = "include paths other than plain relative names; more than 3 included f
 ASSUMPTIONS = ["M8: SourceFile.read_assembly_contents is served from an in-memory map (the real file system only in replays)"]
 
 
-def split_program(body, cuts, nest):
+def split_program(body, cuts, nest, prefix=""):
     """cuts: sorted statement indices [c1<c2<...] ; segments between consecutive cuts become included files.
     nest: if True, each included file includes the next one at its end (depth grows) instead of the main file doing so."""
     files = {}
@@ -34,7 +34,7 @@ def split_program(body, cuts, nest):
             if seg_main:
                 main += seg
             else:
-                name = "inc%d.asm" % k
+                name = prefix + "inc%d.asm" % k
                 files[name] = seg
                 main.append(("", "INCLUDE", name))
                 k += 1
@@ -43,20 +43,20 @@ def split_program(body, cuts, nest):
     else:
         # main = [0,c1) + INCLUDE inc0 + tail after last cut ; inc_i = segment i + INCLUDE inc_{i+1}
         bounds = list(cuts)
-        main = list(body[:bounds[0]]) + [("", "INCLUDE", "inc0.asm")]
+        main = list(body[:bounds[0]]) + [("", "INCLUDE", prefix + "inc0.asm")]
         segs = [body[a:b] for a, b in zip(bounds, bounds[1:] + [len(body)])]
         for i, seg in enumerate(segs):
-            files["inc%d.asm" % i] = list(seg) + ([("", "INCLUDE", "inc%d.asm" % (i + 1))] if i + 1 < len(segs) else [])
+            files[prefix + "inc%d.asm" % i] = list(seg) + ([("", "INCLUDE", prefix + "inc%d.asm" % (i + 1))] if i + 1 < len(segs) else [])
     return main, files
 
 
-def make(pname, cuts, nest):
+def make(pname, cuts, nest, prefix=""):
     prog = meta.PROGRAMS[pname]
     body_ = [x for x in prog["body"]]
 
     def body(ctx):
         texts, vals = meta.make_lits(ctx, prog)
-        main, files = split_program(body_, cuts, nest)
+        main, files = split_program(body_, cuts, nest, prefix)
         fsmap = {name: [l + "\n" for l in meta.render(seg, texts)] for name, seg in files.items()}
         spliced = meta.render(body_, texts)
         with MemFS(fsmap):
@@ -70,8 +70,27 @@ def make(pname, cuts, nest):
         if ok:
             return True, info
         return ctx.known(PID, {"part": "split"}, {"cuts": cuts, "nested": nest}), info
-    return Ob("C19:split:%s:%s%s" % (pname, "-".join(map(str, cuts)), ":nested" if nest else ""), body, timeout=900,
+    return Ob("C19:split:%s:%s%s%s" % (pname, "-".join(map(str, cuts)), ":nested" if nest else "", (":" + prefix.strip("/")) if prefix else ""), body, timeout=900,
               tags={"part": "split"}, text="program %s split at %s%s" % (pname, cuts, " (nested includes)" if nest else ""))
+
+
+def make_twice():
+    """the same (label-free) file included twice, once directly and once through another file: no cycle"""
+    def body(ctx):
+        t, v = ctx.lit("H2", "v")
+        frag = [" CLR ,X+", " LDA #%s" % t, " STA ,X+"]
+        fill = [" LDX #$0400", " INCLUDE frag.asm", " DECB"]
+        main = [" ORG $2000", "START LDB #4", " INCLUDE frag.asm", " INCLUDE fill.asm", " INCLUDE frag.asm", " BNE START", " RTS"]
+        flat = [" ORG $2000", "START LDB #4"] + frag + [" LDX #$0400"] + frag + [" DECB"] + frag + [" BNE START", " RTS"]
+        with MemFS({"frag.asm": [l + "\n" for l in frag], "fill.asm": [l + "\n" for l in fill]}):
+            out_inc = assemble(main)
+        out_flat = assemble(flat)
+        a, b = meta.observe(out_flat), meta.observe(out_inc)
+        info = {"outcomes": [out_flat.describe(), out_inc.describe()]}
+        if meta.same_obs(a, b) and a["kind"] == "ok":
+            return True, info
+        return ctx.known(PID, {"part": "twice"}, {}), info
+    return Ob("C19:twice", body, timeout=300, tags={"part": "twice"}, text="frag.asm included three times (twice directly, once through fill.asm)")
 
 
 def make_diag(did, fsmap, lines, text):
@@ -108,6 +127,9 @@ def obligations(tier, seed):
             cuts = sorted(rnd.sample(range(1, n), min(k, n - 1)))
             add(cuts, rnd.random() < 0.4)
         add(sorted(rnd.sample(range(1, n), 3)), True)
+        obs.append(make(pname, sorted(rnd.sample(range(1, n), 3)), True, prefix="lib/"))      # files in a sub-directory
+        obs.append(make(pname, sorted(rnd.sample(range(1, n), 2)), False, prefix="src/inc/"))
+    obs.append(make_twice())
     obs.append(make_diag("missing", {}, ["A NOP", " INCLUDE nothere.asm", "B NOP"], "INCLUDE of a missing file"))
     obs.append(make_diag("missing-nested", {"a.asm": ["C NOP", " INCLUDE b.asm"]}, ["A NOP", " INCLUDE a.asm"], "nested INCLUDE of a missing file"))
     obs.append(make_diag("directory", {"lib": IsADirectoryError(21, "Is a directory", "lib")}, ["A NOP", " INCLUDE lib"], "INCLUDE of a directory"))
